@@ -30,7 +30,7 @@ Lemma fold_acc_spec (j : nat) : forall (prev : cols_t) (s : list R),
 Proof.
   induction prev as [|[d c] prev IH]; intros s Hlen.
   - simpl. split; auto. intros; lra.
-  - simpl fold_left.
+  - change (fold_left (acc_col XR j) ((d, c) :: prev) s) with (fold_left (acc_col XR j) prev (acc_col XR j s (d, c))).
     assert (Hc : length c = length s) by (apply (Hlen 0%nat); simpl; lia).
     set (s' := acc_col XR j s (d, c)).
     assert (Hs' : length s' = length s).
@@ -48,7 +48,8 @@ Lemma nth_col (j : nat) (A : rmat) (i : nat) : nth i (col XR j A) 0 = G A i j.
 Proof.
   unfold col, G. destruct (le_lt_dec (length A) i) as [Hge|Hlt].
   - rewrite nth_overflow by (rewrite map_length; lia). rewrite (nth_overflow A) by lia. destruct j; reflexivity.
-  - change 0 with ((fun r : list R => nth j r 0) []) at 1. rewrite map_nth. reflexivity.
+  - rewrite (nth_indep _ 0 ((fun r : list R => nth j r (zero (nx XR))) [])) by (rewrite map_length; lia).
+    rewrite (map_nth (fun r : list R => nth j r (zero (nx XR)))). reflexivity.
 Qed.
 
 Lemma cvec_spec (n j : nat) (A : rmat) (prev : cols_t) :
@@ -123,13 +124,9 @@ Lemma skipn_nth_seq (n j : nat) (cv : list R) (f : nat -> R) :
 Proof.
   intros Hl Hf. apply nth_ext with (d := 0) (d' := 0).
   - rewrite skipn_length, map_length, seq_length. lia.
-  - intros i Hi. rewrite skipn_length in Hi. rewrite nth_skipn.
-    change 0 with (f 0%nat) at 2.
-    destruct (le_lt_dec (n - S j) i); [lia|].
-    rewrite (nth_indep _ (f 0%nat) (f (S j + i)%nat)) by (rewrite map_length, seq_length; lia).
-    replace (f (S j + i)%nat) with (f (nth i (seq (S j) (n - S j)) (S j + i)%nat)) at 1
-      by (rewrite seq_nth by lia; reflexivity).
-    rewrite map_nth. rewrite seq_nth by lia. apply Hf. lia.
+  - intros i Hi. rewrite skipn_length in Hi. rewrite nth_skipn_add.
+    rewrite (nth_indep (map f (seq (S j) (n - S j))) 0 (f 0%nat)) by (rewrite map_length, seq_length; lia).
+    rewrite (map_nth f). rewrite seq_nth by lia. apply Hf. lia.
 Qed.
 
 Lemma ldl_cols_spec (pick : nat -> R -> list R -> option R) (n : nat) (A : rmat) :
@@ -142,7 +139,7 @@ Lemma ldl_cols_spec (pick : nat -> R -> list R -> option R) (n : nat) (A : rmat)
 Proof.
   intros HA. induction fuel as [|fuel IH]; intros prev cs Hlen Hinv H.
   - simpl in H. inversion H; subst cs. split; [lia|]. intros k Hk. apply Hinv. lia.
-  - simpl in H. set (j := length prev) in *.
+  - cbn [ldl_cols] in H. set (j := length prev) in *.
     assert (Hpl : forall k, (k < length prev)%nat -> length (snd (nth k prev (0, []))) = n).
     { intros k Hk. destruct (Hinv k Hk) as ((Hl & _) & _). exact Hl. }
     destruct (cvec_spec n j A prev HA Hpl) as (Hcl & Hcn).
@@ -189,4 +186,209 @@ Proof.
            ++ unfold cjj. f_equal. apply sum_n_ext. intros m Hm. rewrite !Ec, Ed by lia. reflexivity.
            ++ unfold cbelow. apply map_ext. intro i. f_equal. apply sum_n_ext. intros m Hm.
               rewrite !Ec, Ed by lia. reflexivity.
+Qed.
+
+(* ---------- the returned matrices ---------- *)
+Lemma G_transpose_n (n : nat) (M : rmat) (i k : nat) :
+  (i < n)%nat -> G (transpose_n XR n M) i k = nth i (nth k M []) 0.
+Proof.
+  intro Hi. unfold G at 1, transpose_n.
+  rewrite (nth_indep _ [] ((fun j => col XR j M) 0%nat)) by (rewrite map_length, seq_length; lia).
+  rewrite (map_nth (fun j => col XR j M)). rewrite seq_nth by lia. simpl.
+  apply nth_col.
+Qed.
+
+Lemma G_transpose_n_out (n : nat) (M : rmat) (i k : nat) :
+  (n <= i)%nat -> G (transpose_n XR n M) i k = 0.
+Proof.
+  intro Hi. unfold G, transpose_n. rewrite (nth_overflow (map _ _)) by (rewrite map_length, seq_length; lia).
+  destruct k; reflexivity.
+Qed.
+
+Lemma G_L_cols (n : nat) (cs : cols_t) (i k : nat) :
+  (i < n)%nat -> G (transpose_n XR n (map snd cs)) i k = ck cs k i.
+Proof.
+  intro Hi. rewrite G_transpose_n by auto. unfold ck.
+  change (@nil R) with (snd (0, @nil R)). rewrite (map_nth snd). reflexivity.
+Qed.
+
+Lemma G_diagm (d : list R) (i k : nat) :
+  (i < length d)%nat -> (k < length d)%nat ->
+  G (diagm XR d) i k = if Nat.eqb i k then nth i d 0 else 0.
+Proof.
+  intros Hi Hk. unfold G, diagm.
+  rewrite (nth_indep _ [] ((fun i => map (fun j => if Nat.eqb i j then nth i d (zero (nx XR)) else zero (nx XR)) (seq 0 (length d))) 0%nat))
+    by (rewrite map_length, seq_length; lia).
+  rewrite (map_nth (fun i => map (fun j => if Nat.eqb i j then nth i d (zero (nx XR)) else zero (nx XR)) (seq 0 (length d)))).
+  rewrite seq_nth by lia. simpl.
+  rewrite (nth_indep _ 0 ((fun j => if Nat.eqb i j then nth i d 0 else 0) 0%nat)) by (rewrite map_length, seq_length; lia).
+  rewrite (map_nth (fun j => if Nat.eqb i j then nth i d 0 else 0)). rewrite seq_nth by lia. reflexivity.
+Qed.
+
+Lemma G_diagm_out (d : list R) (i k : nat) : i <> k -> G (diagm XR d) i k = 0.
+Proof.
+  intro Hne. destruct (le_lt_dec (length d) i) as [Hi|Hi].
+  - unfold G, diagm. rewrite (nth_overflow (map _ _)) by (rewrite map_length, seq_length; lia). destruct k; reflexivity.
+  - destruct (le_lt_dec (length d) k) as [Hk|Hk].
+    + unfold G, diagm.
+      rewrite (nth_indep _ [] ((fun i => map (fun j => if Nat.eqb i j then nth i d (zero (nx XR)) else zero (nx XR)) (seq 0 (length d))) 0%nat))
+        by (rewrite map_length, seq_length; lia).
+      rewrite (map_nth (fun i => map (fun j => if Nat.eqb i j then nth i d (zero (nx XR)) else zero (nx XR)) (seq 0 (length d)))).
+      apply nth_overflow. rewrite map_length, seq_length. lia.
+    + rewrite G_diagm by auto. destruct (Nat.eqb i k) eqn:E; auto. apply Nat.eqb_eq in E. contradiction.
+Qed.
+
+(* ---------- generic theorem ---------- *)
+Section Generic.
+Variable pick : nat -> R -> list R -> option R.
+Variables (n : nat) (A L D : rmat).
+Hypothesis HA : length A = n.
+Hypothesis Hrun : ldl_gen XR pick A = Some (L, D).
+
+Lemma ldl_gen_cols : exists cs : cols_t,
+  length cs = n /\ (forall k, (k < n)%nat -> col_ok n A cs k /\ pick_ok pick n A cs k) /\
+  L = transpose_n XR n (map snd cs) /\ D = diagm XR (map fst cs).
+Proof.
+  unfold ldl_gen in Hrun. rewrite HA in Hrun.
+  destruct (ldl_cols XR pick n A n []) as [cs|] eqn:E; [|discriminate].
+  inversion Hrun; subst L D. exists cs.
+  assert (Hs := ldl_cols_spec pick n A HA n [] cs ltac:(simpl; lia) ltac:(intros k Hk; simpl in Hk; lia) E).
+  destruct Hs as (Hl & Hk). repeat split; auto; apply Hk; auto.
+Qed.
+
+Lemma ldl_gen_structure : unit_lower_triangular n L /\ diagonal D.
+Proof.
+  destruct ldl_gen_cols as (cs & Hl & Hk & -> & ->). split; [split|].
+  - intros i j Hij. destruct (le_lt_dec n i) as [Hge|Hlt]; [apply G_transpose_n_out; auto|].
+    rewrite G_L_cols by auto. destruct (le_lt_dec n j) as [Hgej|Hltj].
+    + unfold ck. rewrite (nth_overflow cs) by lia. destruct i; reflexivity.
+    + destruct (Hk j Hltj) as ((_ & Hz & _) & _). apply Hz. exact Hij.
+  - intros i Hi. rewrite G_L_cols by auto. destruct (Hk i Hi) as ((_ & _ & H1 & _) & _). exact H1.
+  - intros i j Hne. apply G_diagm_out. exact Hne.
+Qed.
+
+(* the pivots as the routine chose them, and what L D L^T reproduces *)
+Lemma ldl_gen_product :
+  exists cs : cols_t,
+  (forall j, (j < n)%nat -> G D j j = dk cs j /\ pick_ok pick n A cs j) /\
+  ((forall j, (j < n)%nat -> dk cs j <> 0) ->
+   (forall i j, (j < i)%nat -> (i < n)%nat -> LDLt n L D i j = G A i j) /\
+   (forall j, (j < n)%nat -> LDLt n L D j j = G A j j + (dk cs j - cjj A cs j))).
+Proof.
+  destruct ldl_gen_cols as (cs & Hl & Hk & -> & ->). exists cs.
+  assert (HD : forall j, (j < n)%nat -> G (diagm XR (map fst cs)) j j = dk cs j).
+  { intros j Hj. rewrite G_diagm by (rewrite map_length; lia). rewrite Nat.eqb_refl. unfold dk.
+    change 0 with (fst (0, @nil R)). rewrite (map_nth fst). reflexivity. }
+  split.
+  - intros j Hj. split; [apply HD; auto|]. apply Hk; auto.
+  - intro Hnz.
+    assert (Hterm : forall i j, (i < n)%nat -> (j < n)%nat ->
+              LDLt n (transpose_n XR n (map snd cs)) (diagm XR (map fst cs)) i j =
+              sum_n (fun k => ck cs k i * dk cs k * ck cs k j) n).
+    { intros i j Hi Hj. unfold LDLt. apply sum_n_ext. intros k Hk'.
+      rewrite !G_L_cols by auto. rewrite HD by auto. reflexivity. }
+    assert (Hcut : forall i j, (j <= i)%nat -> (i < n)%nat ->
+              sum_n (fun k => ck cs k i * dk cs k * ck cs k j) n =
+              sum_n (fun k => ck cs k i * dk cs k * ck cs k j) j + ck cs j i * dk cs j).
+    { intros i j Hji Hi. rewrite (sum_n_cut _ (S j) n); [|lia|].
+      - simpl. destruct (Hk j ltac:(lia)) as ((_ & _ & H1 & _) & _). rewrite H1. lra.
+      - intros k Hk'. destruct (Hk k ltac:(lia)) as ((_ & Hz & _) & _). rewrite (Hz j) by lia. lra. }
+    split.
+    + intros i j Hji Hi. rewrite Hterm by lia. rewrite Hcut by lia.
+      destruct (Hk j ltac:(lia)) as ((_ & _ & _ & Hoff) & _).
+      rewrite (Hoff i) by lia. specialize (Hnz j ltac:(lia)).
+      rewrite (sum_n_ext (fun k => ck cs k i * dk cs k * ck cs k j) (fun m => dk cs m * (ck cs m i * ck cs m j)))
+        by (intros; lra).
+      field. exact Hnz.
+    + intros j Hj. rewrite Hterm by lia. rewrite Hcut by lia.
+      destruct (Hk j Hj) as ((_ & _ & H1 & _) & _). rewrite H1. unfold cjj.
+      rewrite (sum_n_ext (fun k => ck cs k j * dk cs k * ck cs k j) (fun m => dk cs m * (ck cs m j * ck cs m j)))
+        by (intros; lra).
+      lra.
+Qed.
+End Generic.
+
+(* ---------- cholesky_ldl ---------- *)
+Lemma pick_ldl_some j c b d : pick_ldl XR j c b = Some d -> d = c /\ 0 < c.
+Proof.
+  unfold pick_ldl. change (leb (nx XR)) with Rleb. change (zero (nx XR)) with 0.
+  destruct (Rleb c 0) eqn:E; [discriminate|]. intro H.
+  assert (Hdc : d = c) by congruence. split; [exact Hdc|].
+  destruct (Rle_dec c 0) as [Hle|Hgt].
+  - apply Rleb_true in Hle. congruence.
+  - apply Rnot_le_lt. exact Hgt.
+Qed.
+
+Lemma LDLt_sym n L D i j : LDLt n L D i j = LDLt n L D j i.
+Proof. unfold LDLt. apply sum_n_ext. intros; lra. Qed.
+
+Lemma cholesky_ldl_sound (A L D : rmat) (n : nat) :
+  dims n n A -> symmetric n A -> cholesky_ldl XR A = Some (L, D) ->
+  unit_lower_triangular n L /\ diagonal D /\ (forall j, (j < n)%nat -> 0 < G D j j) /\
+  forall i j, (i < n)%nat -> (j < n)%nat -> LDLt n L D i j = G A i j.
+Proof.
+  intros (HA & _) Hsym H. unfold cholesky_ldl in H.
+  destruct (ldl_gen_structure _ n A L D HA H) as (HL & HDg).
+  destruct (ldl_gen_product _ n A L D HA H) as (cs & Hd & Hprod).
+  assert (Hpos : forall j, (j < n)%nat -> dk cs j = cjj A cs j /\ 0 < cjj A cs j).
+  { intros j Hj. destruct (Hd j Hj) as (_ & Hp). apply pick_ldl_some in Hp. exact Hp. }
+  destruct Hprod as (Hoff & Hdiag).
+  { intros j Hj. destruct (Hpos j Hj). lra. }
+  split; [exact HL|]. split; [exact HDg|]. split.
+  - intros j Hj. destruct (Hd j Hj) as (-> & _). destruct (Hpos j Hj). lra.
+  - intros i j Hi Hj. destruct (lt_eq_lt_dec i j) as [[Hlt|Heq]|Hgt].
+    + rewrite LDLt_sym, Hsym by auto. apply Hoff; auto.
+    + subst i. rewrite Hdiag by auto. destruct (Hpos j Hj). lra.
+    + apply Hoff; auto.
+Qed.
+
+(* ---------- cholesky_ldl_forcepd ---------- *)
+Lemma pick_fpd_some n beta delta j c b d :
+  pick_fpd XR n beta delta j c b = Some d -> delta <= d /\ Rabs c <= d.
+Proof.
+  unfold pick_fpd. change (fmax XR) with Rmax. change (nabs (nx XR)) with Rabs.
+  destruct (Nat.eqb j (n - 1)); intro H; inversion H; subst; clear H.
+  - split; [apply Rmax_r|apply Rmax_l].
+  - split; [apply Rmax_r|]. eapply Rle_trans; [|apply Rmax_l]. apply Rmax_l.
+Qed.
+
+Lemma cholesky_ldl_forcepd_sound (A L D : rmat) (n : nat) (bfloor delta : R) :
+  dims n n A -> 0 < delta ->
+  cholesky_ldl_forcepd XR bfloor delta A = Some (L, D) ->
+  unit_lower_triangular n L /\ diagonal D /\
+  (forall j, (j < n)%nat -> delta <= G D j j) /\
+  (forall i j, (j < i)%nat -> (i < n)%nat -> LDLt n L D i j = G A i j) /\
+  (forall j, (j < n)%nat -> G A j j <= LDLt n L D j j).
+Proof.
+  intros (HA & _) Hdelta H. unfold cholesky_ldl_forcepd in H.
+  destruct (ldl_gen_structure _ n A L D HA H) as (HL & HDg).
+  destruct (ldl_gen_product _ n A L D HA H) as (cs & Hd & Hprod).
+  assert (Hb : forall j, (j < n)%nat -> delta <= dk cs j /\ Rabs (cjj A cs j) <= dk cs j).
+  { intros j Hj. destruct (Hd j Hj) as (_ & Hp). rewrite HA in Hp. apply pick_fpd_some in Hp. exact Hp. }
+  destruct Hprod as (Hoff & Hdiag).
+  { intros j Hj. destruct (Hb j Hj). lra. }
+  split; [exact HL|]. split; [exact HDg|]. split; [|split].
+  - intros j Hj. destruct (Hd j Hj) as (-> & _). apply Hb; auto.
+  - exact Hoff.
+  - intros j Hj. rewrite Hdiag by auto. destruct (Hb j Hj) as (_ & Habs).
+    pose proof (Rle_abs (cjj A cs j)). lra.
+Qed.
+
+(* the modification is inactive: the forced pivot is c_jj itself *)
+Lemma pick_fpd_inactive n beta delta j c b :
+  0 < c -> delta <= c ->
+  (j <> (n - 1)%nat -> (fold_left (upd_max XR) b (-1) / beta) * (fold_left (upd_max XR) b (-1) / beta) <= c) ->
+  pick_fpd XR n beta delta j c b = pick_ldl XR j c b.
+Proof.
+  intros Hc Hd Hth. unfold pick_fpd, pick_ldl.
+  change (fmax XR) with Rmax. change (nabs (nx XR)) with Rabs. change (leb (nx XR)) with Rleb.
+  change (zero (nx XR)) with 0. change (neg_inf XR) with (-1). change (div (nx XR)) with Rdiv.
+  change (mul (nx XR)) with Rmult.
+  assert (E : Rleb c 0 = false).
+  { destruct (Rleb c 0) eqn:E; auto. apply Rleb_true in E. lra. }
+  rewrite E. rewrite (Rabs_right c) by lra.
+  destruct (Nat.eqb j (n - 1)) eqn:Ej.
+  - rewrite Rmax_left by lra. reflexivity.
+  - apply Nat.eqb_neq in Ej. specialize (Hth Ej).
+    rewrite (Rmax_left c) by exact Hth. rewrite Rmax_left by lra. reflexivity.
 Qed.
